@@ -156,14 +156,35 @@ impl Prop for C11 {
             2 => (1u8..6, 0u8..6).prop_map(|(attach, k)| Op11::KilledSender { attach, k }),
         ];
         let op = prop_oneof![5 => w, 3 => extra];
-        let repeat = if ctx.thorough { prop_oneof![8 => Just(1u16), 2 => 2u16..20, 1 => 100u16..1000].boxed() } else { prop_oneof![8 => Just(1u16), 2 => 2u16..6].boxed() };
+        let repeat = if ctx.thorough { prop_oneof![8 => Just(1u16), 2 => 2u16..20, 1 => 20u16..100].boxed() } else { prop_oneof![8 => Just(1u16), 2 => 2u16..6].boxed() };
         (proptest::collection::vec(op, 1..max_len), repeat)
             .prop_map(|(ops, repeat)| {
-                // the amplification product stays bounded
-                let repeat = repeat.min((20000 / ops.len().max(1)) as u16).max(1);
+                // the amplification product of generated cases stays bounded (the long repetitions
+                // are the enumerated cases below)
+                let repeat = repeat.min((4000 / ops.len().max(1)) as u16).max(1);
                 Case { ops, repeat }
             })
             .boxed()
+    }
+
+    fn enumerated(ctx: &Ctx) -> Vec<Case> {
+        // amplification: every operation kind that has a failure or release path of its own,
+        // repeated many times on its own (a leak of one descriptor per operation exhausts nothing
+        // in a short sequence but is unmistakable in the snapshot after thousands)
+        let (fast, slow) = if ctx.thorough { (30000u16, 3000u16) } else { (300u16, 40u16) };
+        vec![
+            Case { ops: vec![Op11::ConnectMissing], repeat: fast },
+            Case { ops: vec![Op11::ConnectStale], repeat: slow },
+            Case { ops: vec![Op11::FailSend { attach: 4 }], repeat: fast },
+            Case { ops: vec![Op11::SendToClosed { attach: 3, multi: true }], repeat: fast },
+            Case { ops: vec![Op11::RegionCloneDrop { len: 5000 }], repeat: fast },
+            Case { ops: vec![Op11::UndecodedDrop { attach: 5, multi: true }], repeat: slow },
+            Case { ops: vec![Op11::Route { msgs: 2 }], repeat: slow },
+            Case { ops: vec![Op11::ProxyCycle { routes: 2 }], repeat: slow },
+            Case { ops: vec![Op11::KilledSender { attach: 3, k: 2 }], repeat: slow },
+            Case { ops: vec![Op11::W(Op::SrvNew), Op11::W(Op::SrvConnect(65535)), Op11::W(Op::Send { tx: 65535, size: world::Size::Tiny, tree: crate::node::NP::Unit }), Op11::W(Op::SrvAccept(65535))], repeat: slow },
+            Case { ops: vec![Op11::W(Op::SrvNew), Op11::W(Op::SrvDrop(65535))], repeat: slow },
+        ]
     }
 
     fn exec(_ctx: &Ctx, case: &Case) -> Result<Outcome, Failure> {
